@@ -992,7 +992,7 @@ func genCase(r *rand.Rand) *Case {
 
 func run(m *mon.M) {
 	r := m.Rand("cases")
-	n := m.N(20000, 150000)
+	n := m.N(20000, 250000)
 	for i := 0; i < n; i++ {
 		c := genCase(r)
 		m.Begin(c)
@@ -1000,7 +1000,7 @@ func run(m *mon.M) {
 	}
 	if !m.Quick() {
 		rt := m.Rand("tcp")
-		nt := 4000
+		nt := 10000
 		for i := 0; i < nt; i++ {
 			c := genCase(rt)
 			c.TCP = true
